@@ -1,4 +1,4 @@
-CONSTANT Dev = {"CreateMisplaced", "StaleGroupIndex", "DanglingZero", "ErrUnderflow", "NamesCountDrift", "VertexNoFlag"}
+CONSTANT Dev = {"CreateMisplaced", "StaleGroupIndex", "DanglingZero", "ErrUnderflow", "NamesCountDrift", "VertexNoFlag", "AttrsNotParallel"}
 CONSTANT Budget = 3
 CONSTANT Inits = {0, 1, 2, 3}
 CONSTANT MaxIx = 2
